@@ -1682,3 +1682,15 @@ impl Lowerer<'_> {
         self.emit(Instruction::Drop { val, ty })
     }
 }
+
+/// Verification hook (C01): lower without running dead-code elimination.
+#[cfg(feature = "verif-hooks")]
+pub fn verif_lower_to_mir_without_dce(
+    tree: &ModuleTree,
+    runtime: &Rt,
+    type_info: &mut TypeInfo,
+    label_store: &mut LabelStore,
+    order: &[ResolvedName],
+) -> Mir {
+    Lowerer::tree(runtime, type_info, tree, label_store, order)
+}
